@@ -1,0 +1,36 @@
+//go:build verif
+
+// Contracts for govc (see /verif/DESIGN.md). Comment-only: with the build tag off this file is
+// not part of any build; with it on it adds nothing but the package clause.
+package query
+
+// ---- C15: auxiliary values of streamed query points keep their type across nodes ----
+// A point's auxiliary fields travel as internal.Aux{DataType, <T>Value}. encodeAux tags every value with the
+// influxql data type of its Go type (nil typed pointers carry the tag and no value); decodeAux rebuilds a
+// value of exactly the Go type the tag names. aux_code is that correspondence (Float=1 Integer=2 String=3
+// Boolean=4 Unsigned=9 Unknown=0).
+//@ pure aux_code(x) = ite(typeis(x, "float64") || typeis(x, "*float64"), 1, ite(typeis(x, "int64") || typeis(x, "*int64"), 2, ite(typeis(x, "uint64") || typeis(x, "*uint64"), 9, ite(typeis(x, "string") || typeis(x, "*string"), 3, ite(typeis(x, "bool") || typeis(x, "*bool"), 4, 0)))))
+//@ pure aux_has_value(x) = typeis(x, "float64") || typeis(x, "int64") || typeis(x, "uint64") || typeis(x, "string") || typeis(x, "bool")
+//@ pure aux_value_set(a) = a.FloatValue != nil || a.IntegerValue != nil || a.UnsignedValue != nil || a.StringValue != nil || a.BooleanValue != nil
+
+//@ func encodeAux
+//@   props C15
+//@   loop 1 invariant shape: len(pb) == len(aux) && fresh(pb)
+//@   loop 1 invariant filled: all(k, 0, rangeindex+1, pb[k] != nil && fresh(pb[k]) && pb[k].DataType != nil && fresh(pb[k].DataType))
+//@   loop 1 invariant tagged: all(k, 0, rangeindex+1, *pb[k].DataType == aux_code(aux[k]))
+//@   loop 1 invariant valued: all(k, 0, rangeindex+1, aux_has_value(aux[k]) == aux_value_set(pb[k]))
+//@   ensures tagged_with_the_values_type: len(result) == len(aux) && all(k, 0, len(aux), result[k] != nil && result[k].DataType != nil && *result[k].DataType == aux_code(aux[k]))
+//@   ensures value_present_iff_not_a_nil_pointer: all(k, 0, len(aux), aux_has_value(aux[k]) == aux_value_set(result[k]))
+//@   modifies nothing
+
+// decodeAux: the Go type of every rebuilt value is the one the tag names; a missing value becomes the typed nil
+// pointer of that type (so encodeAux of the result carries the same tag again).
+//@ pure dec_type_ok(a, x) = (*a.DataType == 1 && a.FloatValue != nil ==> typeis(x, "float64")) && (*a.DataType == 1 && a.FloatValue == nil ==> typeis(x, "*float64")) && (*a.DataType == 2 && a.IntegerValue != nil ==> typeis(x, "int64")) && (*a.DataType == 2 && a.IntegerValue == nil ==> typeis(x, "*int64")) && (*a.DataType == 9 && a.UnsignedValue != nil ==> typeis(x, "uint64")) && (*a.DataType == 9 && a.UnsignedValue == nil ==> typeis(x, "*uint64")) && (*a.DataType == 3 && a.StringValue != nil ==> typeis(x, "string")) && (*a.DataType == 3 && a.StringValue == nil ==> typeis(x, "*string")) && (*a.DataType == 4 && a.BooleanValue != nil ==> typeis(x, "bool")) && (*a.DataType == 4 && a.BooleanValue == nil ==> typeis(x, "*bool"))
+//@ func decodeAux
+//@   props C15
+//@   requires messages_present: all(k, 0, len(pb), pb[k] != nil && pb[k].DataType != nil)
+//@   loop 1 invariant shape: len(aux) == len(pb) && fresh(aux)
+//@   loop 1 invariant typed: all(k, 0, rangeindex+1, dec_type_ok(pb[k], aux[k]))
+//@   ensures same_length: len(result) == len(pb)
+//@   ensures typed_by_the_tag: all(k, 0, len(pb), dec_type_ok(pb[k], result[k]))
+//@   modifies nothing
